@@ -448,6 +448,10 @@ func (w *World) canInline(fr *Frame, fn *ssa.Function) bool {
 	if fr.depth >= 4 {
 		return false
 	}
+	if w.topContract != nil && w.topContract.Opts["inline"] == "none" {
+		// a long function whose callees do not matter to its contract: every call without contract is a havoc
+		return false
+	}
 	for f := fr; f != nil; f = f.parentFrame() {
 		if f.fn == fn {
 			return false
@@ -628,7 +632,7 @@ func (w *World) applyContract(fr *Frame, st *State, ct *Contract, names []string
 					panic(r)
 				}
 			}()
-			w.sc.assume(implies(st.cond, w.evalBool(post, en.Expr)))
+			w.sc.assume(implies(st.cond, w.evalBool(post.assuming(), en.Expr)))
 			w.noteQuantFacts(st.cond, post, en.Expr)
 		}()
 	}
@@ -668,7 +672,7 @@ func (w *World) applyContract(fr *Frame, st *State, ct *Contract, names []string
 			if en.Withdrawn || en.Local {
 				continue
 			}
-			w.sc.assume(implies(st.cond, w.evalBool(bpost, en.Expr)))
+			w.sc.assume(implies(st.cond, w.evalBool(bpost.assuming(), en.Expr)))
 			w.noteQuantFacts(st.cond, bpost, en.Expr)
 		}
 		w.usedContracts[base.Kind+" "+base.Name] = base
